@@ -174,6 +174,11 @@ func (c *Ctx) normalize(overlay map[string][]byte) (map[string][]byte, []string)
 			break
 		}
 		progressed := false
+		snapshot := map[string][]byte{}
+		for k, v := range cur {
+			snapshot[k] = v
+		}
+		roundKeys := map[string]bool{}
 		var fnames []string
 		for k := range perFile {
 			fnames = append(fnames, k)
@@ -259,6 +264,7 @@ func (c *Ctx) normalize(overlay map[string][]byte) (map[string][]byte, []string)
 					continue // next round
 				}
 				accepted = append(accepted, fresh...)
+				roundKeys[s.key] = true
 				log = append(log, what)
 			}
 			if len(accepted) == 0 {
@@ -276,10 +282,22 @@ func (c *Ctx) normalize(overlay map[string][]byte) (map[string][]byte, []string)
 		if !progressed {
 			break
 		}
-		// reload with the overlay for the next round (new call sites may have appeared)
+		// reload with the overlay for the next round (new call sites may have appeared). If
+		// the rewritten program does not load (the inliner produced something the compiler
+		// rejects, e.g. a literal with type parameters), this round is undone and the
+		// helpers it touched are treated as given.
 		c.fns = map[ast.Node]*Fn{}
 		c.nfuncs = map[*Fn]bool{}
-		c.load("", cur)
+		if err := c.tryLoad(cur); err != "" {
+			log = append(log, fmt.Sprintf("round undone: the rewritten program does not load (%s)", firstLine(err)))
+			for k := range roundKeys {
+				base[k] = true
+			}
+			cur = snapshot
+			c.fns = map[ast.Node]*Fn{}
+			c.nfuncs = map[*Fn]bool{}
+			c.load("", cur)
+		}
 	}
 	if !changed {
 		return nil, log
@@ -355,4 +373,29 @@ func explicitTypeArgs(p *packagesPkg, call *ast.CallExpr) string {
 		return ""
 	}
 	return "[" + strings.Join(parts, ", ") + "]"
+}
+
+// tryLoad loads the program with the overlay and reports a load failure instead of aborting.
+func (c *Ctx) tryLoad(overlay map[string][]byte) (failure string) {
+	defer func() {
+		if r := recover(); r != nil {
+			if cf, ok := r.(checkFailure); ok {
+				failure = cf.msg
+				return
+			}
+			panic(r)
+		}
+	}()
+	c.load("", overlay)
+	return ""
+}
+
+func firstLine(s string) string {
+	if i := strings.Index(s, "\n"); i >= 0 {
+		s = s[:i]
+	}
+	if len(s) > 200 {
+		s = s[:200]
+	}
+	return s
 }
